@@ -15,6 +15,9 @@ import shutil
 import subprocess
 import sys
 from concurrent.futures import ThreadPoolExecutor
+import threading
+
+GIT_LOCK = threading.Lock()      # (`git worktree add/remove` of several workers at once trip over each other)
 
 VERIF = os.path.dirname(os.path.abspath(__file__))
 
@@ -27,9 +30,10 @@ def worker(k, ids, tier):
     repo = '/tmp/verif_sd_repo_%d' % k
     verif = '/tmp/verif_sd_copy_%d' % k
     out = {}
-    sh(['git', '-C', '/repo', 'worktree', 'remove', '--force', repo])
-    shutil.rmtree(verif, ignore_errors=True)
-    r = sh(['git', '-C', '/repo', 'worktree', 'add', '--detach', repo, 'HEAD'])
+    with GIT_LOCK:
+        sh(['git', '-C', '/repo', 'worktree', 'remove', '--force', repo])
+        shutil.rmtree(verif, ignore_errors=True)
+        r = sh(['git', '-C', '/repo', 'worktree', 'add', '--detach', repo, 'HEAD'])
     assert r.returncode == 0, r.stdout
     sh(['rsync', '-a', '--exclude', 'evidence/replays', '--exclude', '.git', VERIF + '/', verif + '/'])
     env = dict(os.environ, USIM_VERIF_REPO=repo, VERIF_EVIDENCE_DIR=verif + '/evidence_trial')
@@ -72,9 +76,10 @@ def worker(k, ids, tier):
                 mid, rc, out[mid]['broken'], out[mid]['mismatches'], out[mid]['new_violations'], out[mid]['escalated'],
                 out[mid]['no_failing_input_found']), flush=True)
     finally:
-        sh(['git', '-C', '/repo', 'worktree', 'remove', '--force', repo])
-        shutil.rmtree(verif, ignore_errors=True)
-        sh(['git', '-C', '/repo', 'worktree', 'prune'])
+        with GIT_LOCK:
+            sh(['git', '-C', '/repo', 'worktree', 'remove', '--force', repo])
+            shutil.rmtree(verif, ignore_errors=True)
+            sh(['git', '-C', '/repo', 'worktree', 'prune'])
     return out
 
 
